@@ -280,14 +280,14 @@ pub fn def(tier: Tier) -> PropertyDef {
 	let max_len = tier.pick(120usize, 500);
 	for name in mgen::all_kind_names() {
 		let strat = (mgen::method_case(name, max_len), any::<u16>()).prop_map(|(m, at)| SnapCase { m, at });
-		checks.push(pt(&format!("method_{name}"), tier.pick(2000, 10000), strat, run_snap));
+		checks.push(pt(&format!("method_{name}"), tier.pick(2000, 50000), strat, run_snap));
 	}
 	for name in cfggen::NAMES {
 		let strat = (cfggen::config_strategy(name, GenOpts::default()), gen::candle_stream(1, tier.pick(150, 500)), any::<u16>()).prop_map(|(cfg, s, at)| ISnapCase { cfg, s, at });
-		checks.push(pt(&format!("indicator_{name}"), tier.pick(1000, 5000), strat, run_isnap));
+		checks.push(pt(&format!("indicator_{name}"), tier.pick(1000, 25000), strat, run_isnap));
 		// snapshots taken deep inside a long one-sided trend (counters far from their initial values)
 		let strat = (cfggen::config_strategy(name, GenOpts::default()), gen::trend_candle_stream(tier.pick(2000, 8000)), any::<u16>()).prop_map(|(cfg, s, at)| ISnapCase { cfg, s, at });
-		checks.push(pt(&format!("trend_indicator_{name}"), tier.pick(40, 200), strat, run_isnap));
+		checks.push(pt(&format!("trend_indicator_{name}"), tier.pick(40, 1000), strat, run_isnap));
 	}
 	checks.push(enumerate("plain_types", |_, _| Box::new(std::iter::once(0u8)), run_plain));
 	for i in 0..2 {
